@@ -15,19 +15,19 @@ const paramDir = "/repo/examples/parameter"
 // ---------------------------------------------------------------------------------
 
 type Horizon struct {
-	Texture  string  // 3 characters (may contain trailing blanks)
-	LowerDM  int     // lower boundary in dm (cumulative)
-	LD       int     // bulk density class 1..5
-	BD       float64 // measured bulk density (CSV only), 0 = use class
-	Corg     float64 // %
-	Stone    int     // %
-	CN       int     // C/N ratio (0 = default)
-	FC       int     // explicit values in vol %, 0 = table / PTF
-	WP       int
-	PS       int
-	Sand     int
-	Silt     int
-	Clay     int
+	Texture string  // 3 characters (may contain trailing blanks)
+	LowerDM int     // lower boundary in dm (cumulative)
+	LD      int     // bulk density class 1..5
+	BD      float64 // measured bulk density (CSV only), 0 = use class
+	Corg    float64 // %
+	Stone   int     // %
+	CN      int     // C/N ratio (0 = default)
+	FC      int     // explicit values in vol %, 0 = table / PTF
+	WP      int
+	PS      int
+	Sand    int
+	Silt    int
+	Clay    int
 }
 
 type SoilSpec struct {
@@ -48,7 +48,7 @@ type GWPoint struct {
 }
 
 type WeatherDay struct {
-	D                                                   Date
+	D                                                        Date
 	Tavg, Tmin, Tmax, Precip, Glob, Wind, RH, Sun, Verd, ET0 float64
 	// which optional values are written as the "none" sentinel
 	NoneTavg, NoneSun, NoneVerd bool
@@ -74,13 +74,13 @@ type RotEntry struct {
 	WinOpen    Date // sowing window of the automatic-management table in the sowing year
 	WinClose   Date
 	LatestHarv Date // latest harvest date of the table in the harvest year
-	Crop    string
-	Variety string
-	Sow     Date
-	Harvest Date
-	Rex     int // % residues exported
-	Yld     int
-	AutOrg  int
+	Crop       string
+	Variety    string
+	Sow        Date
+	Harvest    Date
+	Rex        int // % residues exported
+	Yld        int
+	AutOrg     int
 }
 
 type FertEvent struct {
@@ -140,13 +140,13 @@ type Scenario struct {
 	IrrFlag    bool
 	OtherField bool // add events of a second field to the files
 
-	MeasCSV   bool
-	MeasInit  bool // write one measurement record (initial values) for the field
-	MeasDate  Date
-	MeasN     [6]int
-	MeasW     [6]float64
-	MeasMode  string // "1" fraction of available water, "3" absolute
-	InitSel   int
+	MeasCSV  bool
+	MeasInit bool // write one measurement record (initial values) for the field
+	MeasDate Date
+	MeasN    [6]int
+	MeasW    [6]float64
+	MeasMode string // "1" fraction of available water, "3" absolute
+	InitSel  int
 
 	ETpot        int
 	CO2Method    int
@@ -165,9 +165,9 @@ type Scenario struct {
 	PrecipCorr   bool
 	PrecoFactors [12]float64
 	// WeatherFault (C04): the weather input does not cover the whole simulation ("", ends_early, gap, missing_year, starts_late)
-	WeatherFault  string
-	FaultFrom     Date // first day without a record
-	FaultTo       Date // last day without a record
+	WeatherFault string
+	FaultFrom    Date // first day without a record
+	FaultTo      Date // last day without a record
 	OutInterval  int
 	ResultFormat int // 0 hermes fixed width, 1 csv
 	ResultExt    string
@@ -197,21 +197,21 @@ type Scenario struct {
 }
 
 type Injection struct {
-	Day    int     // offset from start day
-	WFrac  []float64 // per layer fraction in [0,1]: WG = WMIN/3 + f*(W-WMIN/3)
-	N      []float64 // per layer mineral N
-	Rain   float64 // cm, <0 = leave
+	Day   int       // offset from start day
+	WFrac []float64 // per layer fraction in [0,1]: WG = WMIN/3 + f*(W-WMIN/3)
+	N     []float64 // per layer mineral N
+	Rain  float64   // cm, <0 = leave
 }
 
 // ------------------------------- tables ------------------------------------------
 
 type CropInfo struct {
-	Code             string
-	Winter           bool
-	SowLo, SowHi     int
-	HarvLo, HarvHi   int
-	Legume           bool
-	Varieties        []string
+	Code           string
+	Winter         bool
+	SowLo, SowHi   int
+	HarvLo, HarvHi int
+	Legume         bool
+	Varieties      []string
 }
 
 var cropTable = []CropInfo{
@@ -242,7 +242,7 @@ func cropInfo(code string) *CropInfo {
 var textureList []string // textures present in both HYPAR.TRU and PARCAP.TRU (3 chars)
 
 type FertRow struct {
-	Name                            string
+	Name                              string
 	Ntot, Ndir, Nfst, Nslo, NH4, Loss float64
 }
 
@@ -1192,22 +1192,22 @@ func genOutputConfigs(sc *Scenario, r *Rng, p Profile) {
 
 // AutoRow is one line of the automatic-management table (one per crop code).
 type AutoRow struct {
-	Crop                  string
-	Sow1, Sow2, Har2      int // day of year in a normal year (rendered as day+month in the configured date format)
-	FixedSowing           bool
-	TS                    float64
-	TSIsMax               bool
-	SMoMin, SMoMax        float64
-	HMoMin, HMoMax        float64
-	RainAv, RainAct       float64
-	TAccu, TBase          int
-	IrrSt1, IrrSt2        int
-	Ndem1, Ndem2, Ndem3   int
-	St1, St2, St3         string // 3 characters each
-	TWindow               int
-	OrgF                  string
-	OrgAmount             int
-	OrgTime               string // H or S + 2 digits
+	Crop                   string
+	Sow1, Sow2, Har2       int // day of year in a normal year (rendered as day+month in the configured date format)
+	FixedSowing            bool
+	TS                     float64
+	TSIsMax                bool
+	SMoMin, SMoMax         float64
+	HMoMin, HMoMax         float64
+	RainAv, RainAct        float64
+	TAccu, TBase           int
+	IrrSt1, IrrSt2         int
+	Ndem1, Ndem2, Ndem3    int
+	St1, St2, St3          string // 3 characters each
+	TWindow                int
+	OrgF                   string
+	OrgAmount              int
+	OrgTime                string // H or S + 2 digits
 	IrrLow, IrrDep, IrrMax int
 }
 
